@@ -295,9 +295,12 @@ func uKey(i, j int) string { return fmt.Sprintf("t%d:%d i%d", uTime(j), uLoc(i),
 func uRecord(i, j int, letters string, retr bool, withEt bool) string {
 	vals := uKey(i, j)
 	for a := range letters {
-		if letters[a] == 's' {
+		switch {
+		case letters[a] == 's':
 			vals += fmt.Sprintf(" i%d", 3+2*i+5*j)
-		} else {
+		case letters[a] == 'N' && i == 1: // count over an argument that is NULL for id 1
+			vals += " n"
+		default:
 			vals += " i1"
 		}
 	}
@@ -452,6 +455,14 @@ func genGbOps(g *Gen, tier string, w *bufio.Writer, salt int, small bool) {
 				continue
 			}
 			enumStreams(n, "c", true, func(s string) {
+				fmt.Fprintf(w, "gb %s K2 Ac E0 :: %s\n", c, s)
+			})
+		}
+	}
+	// the same universe with a NULL aggregate argument for one of the ids (AggregatedSetSize stays 0: the column must be NULL)
+	for n := 1; n <= full-1; n++ {
+		for _, c := range cfgs {
+			enumStreams(n, "N", true, func(s string) {
 				fmt.Fprintf(w, "gb %s K2 Ac E0 :: %s\n", c, s)
 			})
 		}
